@@ -286,10 +286,12 @@ theorem expandFts3_no_aliases (fuel : Nat) (tt tt' : KVs) (h : expandFts3 fuel t
       · rename_i p hp
         split at h
         · simp at h
-        · rename_i q hq
-          injection h with h
-          rw [← h]
-          exact (overSlots3_none _ _ _ _ _ _ _ _ hq).mpr (kvGet_kvErase_same _ _)
+        · split at h
+          · simp at h
+          · rename_i q hq
+            injection h with h
+            rw [← h]
+            exact (overSlots3_none _ _ _ _ _ _ _ _ hq).mpr (kvGet_kvErase_same _ _)
   · simp at h
 
 theorem expandFts3_keeps_none (fuel : Nat) (tt tt' : KVs) (k2 : String) (h : expandFts3 fuel tt = .ok tt')
@@ -308,23 +310,25 @@ theorem expandFts3_keeps_none (fuel : Nat) (tt tt' : KVs) (k2 : String) (h : exp
         · rename_i p hp
           split at h
           · simp at h
-          · rename_i q hq
-            injection h with h
-            rw [← h]
-            apply (overSlots3_none _ _ _ _ _ _ _ k2 hq).mpr
-            rw [kvGet_kvErase_other _ _ hk]
-            apply (overSlots3_none _ _ _ _ _ _ _ k2 hp).mpr
-            -- normalizeMembers3
-            simp only [normalizeMembers3, bind, Except.bind] at h1
-            split at h1
-            · simp at h1
-            · rename_i tta ha
+          · split at h
+            · simp at h
+            · rename_i q hq
+              injection h with h
+              rw [← h]
+              apply (overSlots3_none _ _ _ _ _ _ _ k2 hq).mpr
+              rw [kvGet_kvErase_other _ _ hk]
+              apply (overSlots3_none _ _ _ _ _ _ _ k2 hp).mpr
+              -- normalizeMembers3
+              simp only [normalizeMembers3, bind, Except.bind] at h1
               split at h1
               · simp at h1
-              · rename_i r hr
-                injection h1 with h1
-                rw [← h1]
-                exact (overSlots3_none _ _ _ _ _ _ _ k2 hr).mpr ((modKey_none _ k2 _ _ _ ha).mpr hn)
+              · rename_i tta ha
+                split at h1
+                · simp at h1
+                · rename_i r hr
+                  injection h1 with h1
+                  rw [← h1]
+                  exact (overSlots3_none _ _ _ _ _ _ _ k2 hr).mpr ((modKey_none _ k2 _ _ _ ha).mpr hn)
     · simp at h
 
 theorem subLogLevels_no_aliases (tt tt' : KVs) (h : subLogLevels tt = .ok tt') :
